@@ -24,7 +24,7 @@ ASSUMPTIONS = [
     "EML exporter: qualified attributes, prefixes and namespace maps are not part of its contract (it predates them); the "
     "boilerplate attributes it adds to an eml root are ignored",
 ]
-REQUIRED = ["general_exports", "eml_exports", "expat_accepts", "libxml2_accepts", "reimports", "special:<:content", "special:&:content",
+REQUIRED = ["fragment_exports", "general_exports", "eml_exports", "expat_accepts", "libxml2_accepts", "reimports", "special:<:content", "special:&:content",
             "special:\":attribute", "special:<:attribute", "special:&:attribute", "special:&:extras", "special:<:tail", "special:&:uri",
             "trees_with_nested_declarations"]
 EXHAUSTIVE = {"quick": False, "thorough": False}
@@ -180,6 +180,23 @@ def judge_general(ctx, root):
     emlkit.discard(back)
 
 
+def judge_fragments(ctx, root):
+    """A subtree is a tree: exporting an inner node (or a copy of it, or a detached one) must give a well-formed document that
+    reads back as that subtree, inherited namespace bindings included."""
+    inner = [n for n in snapshot.walk(root)[1:] if n.nsmap]
+    for n in (inner if len(inner) <= 2 else ctx.rng.sample(inner, 2)):
+        for how in ("inner", "copy"):
+            sub_root = n if how == "inner" else n.copy()
+            saved_tail, sub_root.tail = sub_root.tail, None
+            try:
+                judge_general(ctx, sub_root)
+                ctx.count("fragment_exports")
+            finally:
+                sub_root.tail = saved_tail
+                if how == "copy":
+                    emlkit.discard(sub_root)
+
+
 def judge_eml(ctx, root):
     wit = lambda: {"tree": snapshot.to_plain(root), "exporter": "export.to_xml"}
     try:
@@ -232,6 +249,8 @@ def run(ctx, params):
             ctx.case(judge_general, ctx, root)
         else:
             ctx.case(judge_general, ctx, root)
+            if i % 3 == 0:
+                ctx.case(judge_fragments, ctx, root)
         if any(v and any(ch in v for ch in "<>&\"") for n in snapshot.walk(root) for v in [n.content, n.tail] + list(n.attributes.values()) + list(n.extras.values())):
             ctx.distinct(snapshot.value(root))
         if i % 13 == 0:
